@@ -72,6 +72,7 @@ let () =
            | ["P"] -> Some RPoll
            | ["R"; id; len; data] -> let d = unhex data in
              Some (RRx { r_id = zhex id; r_len = z_of_string len; r_buf = List.init 8 (fun i -> if i < List.length d then List.nth d i else zi 0) })
+           | ["H"; iv] -> Some (RSetHeartbeat (z_of_string iv, zi 0, zi (-1)))   (* documented defaults: offset 0, all devices *)
            | ["H"; iv; off] -> Some (RSetHeartbeat (z_of_string iv, z_of_string off, zi (-1)))
            | ["H"; iv; off; idev] -> Some (RSetHeartbeat (z_of_string iv, z_of_string off, z_of_string idev))
            | _ -> None in
